@@ -2,6 +2,7 @@ package main
 
 import (
 	"flag"
+	"runtime/pprof"
 	"fmt"
 	"os"
 	"path/filepath"
@@ -41,6 +42,18 @@ func usage() {
 func main() {
 	if len(os.Args) < 2 {
 		usage()
+	}
+	if pf := os.Getenv("GOSYM_PROF"); pf != "" {
+		f, _ := os.Create(pf)
+		pprof.StartCPUProfile(f)
+		defer pprof.StopCPUProfile()
+		code := 0
+		switch os.Args[1] {
+		case "check":
+			code = cmdCheck(os.Args[2:])
+		}
+		pprof.StopCPUProfile()
+		os.Exit(code)
 	}
 	switch os.Args[1] {
 	case "check":
@@ -134,7 +147,9 @@ func loadPkg(modDir, pkgRel string, harnessFiles []string) (*LoadedPkg, error) {
 		return nil, fmt.Errorf("package load errors: %s", strings.Join(msgs, "; "))
 	}
 	prog, spkgs := ssautil.AllPackages(pkgs, ssa.InstantiateGenerics)
-	spkgs[0].Build()
+	// build every package up front: lazy building from several exploration workers races with readers of half-built functions
+	prog.Build()
+	_ = spkgs[0]
 	n := 0
 	packages.Visit(pkgs, nil, func(p *packages.Package) { n++ })
 	return &LoadedPkg{prog: prog, pkg: spkgs[0], files: overlay, pkgDir: pkgDir, loadS: time.Since(t0).Seconds(), npkgs: n}, nil
